@@ -35,9 +35,50 @@ def gen_params(rng, N):
     return u, w
 
 
+def other_interpreter_case(ctx, rng, idx):
+    """Two samplers with the same parameters and seed in two INTERPRETER RUNS whose string hashing differs (PYTHONHASHSEED 1 and
+    2), started from a hypergraph with string labels: the sequence of samples is a function of the parameters and the seed,
+    not of the order in which some set or dict of labels / hyperedges happens to iterate."""
+    import json
+    import os
+    import subprocess
+    import sys
+
+    ctx.event("same-sampler-in-two-interpreter-runs")
+    labels = ["n%02d" % i for i in range(rng.randint(6, 9))]
+    es = set()
+    while len(es) < rng.randint(5, 9):
+        es.add(tuple(sorted(rng.sample(labels, rng.choice([2, 2, 3, 3, 4])))))
+    payload = json.dumps({"labels": labels, "edges": sorted(es), "seed": rng.randrange(1, 10**6), "burn": rng.choice([5, 50]), "thin": rng.choice([1, 10]), "K": 2,
+                          "useed": rng.randrange(10**6)})
+    code = ("import json,sys,numpy as np,hypergraphx as hgx;from hypergraphx.generation.hy_mmsbm_sampling import HyMMSBMSampler;d=json.loads(sys.stdin.read());"
+            "r=np.random.default_rng(d['useed']);N=len(d['labels']);u=r.random((N,d['K']))+0.05;w=np.eye(d['K'])*2+0.3;"
+            "h=hgx.Hypergraph([tuple(e) for e in d['edges']]);[h.add_node(n) for n in d['labels']];"
+            "s=HyMMSBMSampler(u=u,w=w,burn_in_steps=d['burn'],intermediate_steps=d['thin'],seed=d['seed']);it=s.sample(initial_hyg=h);"
+            "out=[sorted((sorted(map(str,e)),int(g.get_weight(e))) for e in g.get_edges()) for g in (next(it) for _ in range(3))];print(json.dumps(out))")
+    outs = []
+    for hs_ in ("1", "2"):
+        env = dict(os.environ, PYTHONHASHSEED=hs_, PYTHONPATH=os.environ.get("HGX_VERIF_REPO", "/repo"))
+        try:
+            pr = subprocess.run([sys.executable, "-c", code], input=payload, capture_output=True, text=True, timeout=300, env=env)
+        except subprocess.TimeoutExpired:
+            ctx.inconclusive_case("sampler-subprocess-timeout")
+            return
+        if pr.returncode != 0:
+            ctx.check("C16:reproducible", False, "C16:initial:sampler-failed-in-a-fresh-interpreter", lambda: {"stderr": pr.stderr[-500:], "input": payload})
+            return
+        outs.append(pr.stdout.strip().splitlines()[-1])
+    ctx.check("C16:reproducible", outs[0] == outs[1], "C16:initial:same-parameters-and-seed-different-samples:across-interpreter-runs",
+              lambda: {"input": payload, "run(PYTHONHASHSEED=1)": outs[0][:300], "run(PYTHONHASHSEED=2)": outs[1][:300]})
+    ctx.distinct_add(("two-interpreters", payload))
+
+
 def run_case(ctx, rng, idx):
     import hypergraphx as hgx
     from hypergraphx.generation import hy_mmsbm_sampling as hs
+
+    if idx in (9, 17) or (ctx.tier == "thorough" and idx % 1000 == 9):
+        return other_interpreter_case(ctx, rng, idx)
 
     mode = ["initial", "initial", "sequences", "model", "initial", "deg-only", "sequences", "dim-only"][idx % 8]
     exact_dyadic = mode == "initial" or rng.random() < 0.65  # False: dyadic interactions through the CLT approximation as well
